@@ -180,71 +180,70 @@ func runSolver(ctx context.Context, sp solverSpec, query string) SolveResult {
 	return res
 }
 
-// Solve decides one query: z3 5.1 alone first with a short budget, then a race of all three back ends.
-// usesZ3Ext tells that the query contains z3-only constructs (map combinators, lambdas) so cvc5 is skipped.
+// Solve decides one query with a portfolio: stage 1 races two z3 5.1 configurations for a short budget
+// (most goals are decided there in milliseconds); stage 2 races five configurations/solvers for the full
+// budget. Configurations differ in case splitting and quantifier-instantiation eagerness, which is what makes
+// single runs on quantifier-heavy goals unstable. usesZ3Ext: the query contains z3-only constructs, skip cvc5.
 func Solve(query string, timeoutS int, seed int, usesZ3Ext bool, needModel bool) SolveResult {
 	q := query
 	if needModel {
 		q = query + "(get-model)\n"
 	}
-	cmds := solverCmds(timeoutS, seed)
-	short := 3
-	if timeoutS < short {
-		short = timeoutS
+	mk := func(name string, bin string, t int, extra ...string) solverSpec {
+		argv := []string{bin, "-in", fmt.Sprintf("-T:%d", t), fmt.Sprintf("smt.random_seed=%d", seed), fmt.Sprintf("sat.random_seed=%d", seed)}
+		argv = append(argv, extra...)
+		return solverSpec{name, argv}
 	}
-	first := solverCmds(short, seed)[0]
-	ctx, cancel := context.WithTimeout(context.Background(), time.Duration(short+2)*time.Second)
-	r := runSolver(ctx, first, q)
-	cancel()
-	if r.Status == "unsat" || r.Status == "sat" {
-		return r
-	}
-	if r.Status == "error" {
-		return r
-	}
-	if timeoutS <= short {
-		return r
-	}
-	// race
-	ctx2, cancel2 := context.WithTimeout(context.Background(), time.Duration(timeoutS+2)*time.Second)
-	defer cancel2()
-	ch := make(chan SolveResult, len(cmds))
-	n := 0
-	// extra z3 5.1 runs with other seeds: quantifier instantiation order makes single runs unstable
-	for k := 1; k <= 2; k++ {
-		extra := solverCmds(timeoutS, seed+17*k)[0]
-		extra.name += fmt.Sprintf(" (seed+%d)", 17*k)
-		cmds = append(cmds, extra)
-	}
-	for i, sp := range cmds {
-		if i == 2 {
-			if usesZ3Ext {
-				continue
-			}
-			// cvc5 wants produce-models before set-logic; we use no set-logic; strip z3 options
+	race := func(specs []solverSpec, budget int, cvc bool) SolveResult {
+		ctx, cancel := context.WithTimeout(context.Background(), time.Duration(budget+2)*time.Second)
+		defer cancel()
+		ch := make(chan SolveResult, len(specs)+1)
+		n := 0
+		for _, sp := range specs {
+			n++
+			go func(sp solverSpec) { ch <- runSolver(ctx, sp, q) }(sp)
+		}
+		if cvc {
 			qq := strings.Replace(q, "(set-option :smt.mbqi true)\n", "(set-logic ALL)\n", 1)
 			if needModel {
 				qq = "(set-option :produce-models true)\n" + qq
 			}
 			n++
-			go func(sp solverSpec, qq string) { ch <- runSolver(ctx2, sp, qq) }(sp, qq)
-			continue
+			sp := solverSpec{"cvc5-1.0", []string{"cvc5", "--lang=smt2", fmt.Sprintf("--tlimit=%d", budget*1000), "--full-saturate-quant", fmt.Sprintf("--seed=%d", seed)}}
+			go func() { ch <- runSolver(ctx, sp, qq) }()
 		}
-		n++
-		go func(sp solverSpec) { ch <- runSolver(ctx2, sp, q) }(sp)
+		var best SolveResult
+		best.Status = "error"
+		for i := 0; i < n; i++ {
+			rr := <-ch
+			if rr.Status == "unsat" || rr.Status == "sat" {
+				cancel()
+				return rr
+			}
+			if best.Status == "error" || (rr.Status != "error" && best.Status != "unknown") {
+				best = rr
+			}
+		}
+		return best
 	}
-	best := r
-	for i := 0; i < n; i++ {
-		rr := <-ch
-		if rr.Status == "unsat" || rr.Status == "sat" {
-			cancel2()
-			return rr
-		}
-		if best.Status == "error" || rr.Status != "error" {
-			best = rr
-		}
+	short := 3
+	if timeoutS < short {
+		short = timeoutS
 	}
-	return best
+	r := race([]solverSpec{
+		mk("z3-5.1.0", "z3-new", short),
+		mk("z3-5.1.0 (case_split=3)", "z3-new", short, "smt.auto_config=false", "smt.case_split=3"),
+	}, short, false)
+	if r.Status == "unsat" || r.Status == "sat" || timeoutS <= short {
+		return r
+	}
+	return race([]solverSpec{
+		mk("z3-5.1.0", "z3-new", timeoutS),
+		mk("z3-5.1.0 (case_split=3)", "z3-new", timeoutS, "smt.auto_config=false", "smt.case_split=3"),
+		mk("z3-5.1.0 (qi.eager_threshold=100)", "z3-new", timeoutS, "smt.qi.eager_threshold=100"),
+		mk("z3-4.8.12", "z3", timeoutS),
+		mk("z3-4.8.12 (case_split=3)", "z3", timeoutS, "smt.auto_config=false", "smt.case_split=3"),
+	}, timeoutS, !usesZ3Ext)
 }
 
 func writeFile(path string, s string) error {
